@@ -114,7 +114,20 @@ def report(ctx, accepted, scs, lines, scenario_of, signature=None, max_diag=60, 
             diagnosed += 1
             sc = min(members, key=lambda s: len(lines[s]))
             idx, ev = diagnose(ctx, lines[sc], module, extra_constants)
-            quick_sig = (ev.get("ev", "?") + ":" + "/".join(key), "event not allowed by the specification: " + describe(ev)[:220])
+            ctxt = ""
+            if ev.get("ev") in ("write", "call", "block", "close"):
+                # which request was being answered: replies written so far on this connection
+                c = ev.get("c", 0)
+                done = sum(1 for ln in lines[sc][:idx] if '"ev":"write"' in ln and json.loads(ln).get("c") == c)
+                per_conn = []
+                for ln in lines[sc]:
+                    if '"ev":"reqs"' in ln and json.loads(ln).get("c") == c:
+                        per_conn += request_names([ln])
+                if done < len(per_conn):
+                    ctxt = " while answering request #%d '%s'" % (done + 1, per_conn[done][:60])
+                    if done > 0:
+                        ctxt += " (after '%s')" % per_conn[done - 1][:40]
+            quick_sig = (ev.get("ev", "?") + ":" + "/".join(key), "event not allowed by the specification: " + describe(ev)[:200] + ctxt)
         else:
             ev = None
             quick_sig = ("undiagnosed:" + "/".join(key), "rejected (not diagnosed: more than %d groups)" % max_diag)
